@@ -107,6 +107,7 @@ class World:
                 if attr.is_collection and attr.reverse.is_collection:
                     cols = self.m2m_tables.setdefault(attr.table, {})
                     for c in attr.reverse.columns: cols[c] = i     # the column naming this entity's pk
+        self.before_query = None
         self.persist = {}      # tag -> entity index of committed rows
         self.objs = {}         # tag -> object of the running session
         self.last_dump = self.dump()
@@ -140,6 +141,7 @@ class World:
     def get(self, tag):
         o = self.objs.get(tag)
         if o is None and tag in self.persist:
+            if self.before_query is not None: self.before_query()    # the query below would auto-flush: make it a tracked flush point
             o = self.E[self.persist[tag]].get(tag=tag)
             if o is not None: self.objs[tag] = o
         return o
@@ -279,12 +281,16 @@ def canon_model(out):
 
 # ---------------------------------------------------------------- running histories
 
+class FlushFailed(Exception):
+    pass
+
 class Run:
     """executes one history (recorded, or generated online with `rng`) against a World; collects flush records"""
     def __init__(self, ctx, spec, strict=False, rng=None, recorded=None):
         self.ctx = ctx; self.spec = spec; self.strict = strict; self.rng = rng
         self.recorded = recorded
         self.w = World(spec, strict=strict)
+        self.w.before_query = self.before_query
         self.hist = []            # executed sessions (lists of ops)
         self.records = []         # flush points: dict(model request, real result, meta)
         self.problems = []        # oracle failures: (what, detail)
@@ -292,6 +298,11 @@ class Run:
         self.stats = {}
 
     def count(self, k): self.stats[k] = self.stats.get(k, 0) + 1
+
+    def before_query(self):
+        """Pony flushes a modified session before it sends a query (prepare_connection_for_query_execution)"""
+        if self.w.db._get_cache().modified:
+            if self.flush_point('autoflush', None) is False: raise FlushFailed()
 
     # ---- op generation (online, from the live state)
     def gen_op(self, nops):
@@ -431,10 +442,12 @@ class Run:
             try:
                 n = self.rng.choice([1, 2, 3, 4, 5, 6, 8, 10]) if ops is None else len(ops)
                 for i in range(n):
-                    op = self.gen_op(i) if ops is None else ops[i]
-                    done.append(op)
                     try:
+                        op = self.gen_op(i) if ops is None else ops[i]
+                        done.append(op)
                         ok = self.exec_op(op)
+                    except FlushFailed:
+                        failed = 'flush'; break
                     except LookupError:
                         self.count('op-stale'); continue
                     except (core.ConstraintError, core.CacheIndexError, core.OperationWithDeletedObjectError, core.UnrepeatableReadError, ValueError, core.TransactionError, RecursionError) as e:
@@ -548,15 +561,27 @@ def explore(ctx, strict, nhist):
         for what, detail in r.problems:
             if what.startswith('infrastructure'):
                 raise RuntimeError('%s: %r' % (what, detail))
-            spec2, hist2 = shrink(ctx, spec, r.hist, strict, what)
-            report(ctx, spec2, hist2, strict, what, detail)
+            report(ctx, spec, r.hist, strict, what, detail)
+        if strict:
+            # the SAME history on the schema Pony itself generates (with its ON DELETE clauses): any refusal there is a
+            # fresh violation with its own key
+            r2 = Run(ctx, spec, strict=False, recorded=r.hist).run()
+            runs.append(r2)
+            ctx.case({'spec': spec, 'history': r.hist, 'strict': False, 'twin': True}, nontrivial=bool(r2.records), kind='history-twin-of-strict')
+            for k, v in r2.stats.items(): ctx.count('twin:' + k, v)
+            for what, detail in r2.problems:
+                if what.startswith('infrastructure'):
+                    raise RuntimeError('%s: %r' % (what, detail))
+                report(ctx, spec, r.hist, False, what, detail)
     return runs
 
 STRICT_DELETE_KEY = 'strict-schema:DELETE-refused:delete-order-relies-on-ON-DELETE'
 
-def report(ctx, spec, hist, strict, what, detail):
-    ps = try_history(ctx, spec, hist, strict)
-    det = next((p[1] for p in ps if p[0] == what), detail)
+def report(ctx, spec, hist, strict, what, detail, shrunk=False):
+    det = detail
+    if shrunk:
+        ps = try_history(ctx, spec, hist, strict)
+        det = next((p[1] for p in ps if p[0] == what), detail)
     key = 'c16:' + json.dumps([spec, hist, strict], sort_keys=True)
     if strict:
         # one class of failures has a canonical key: the strict backend refuses a DELETE (the last traced statement) of a
@@ -566,6 +591,10 @@ def report(ctx, spec, hist, strict, what, detail):
                 and not try_history(ctx, spec, hist, False):
             key = STRICT_DELETE_KEY
             ctx.count('strict:delete-refused')
+    if key != STRICT_DELETE_KEY and not shrunk:
+        spec2, hist2 = shrink(ctx, spec, hist, strict, what)
+        return report(ctx, spec2, hist2, strict, what, detail, shrunk=True)
+    if strict:
         what = 'with the ON DELETE clauses removed from the schema: ' + what
     ctx.violation(what, {'spec': spec, 'history': hist, 'strict': strict}, observed=det, expected='flush succeeds / database unchanged', key=key)
 
@@ -583,7 +612,7 @@ def replay(ctx, data):
         ctx.case({'spec': inp['spec'], 'history': inp['history'], 'strict': strict}, kind='replay')
         for what, detail in r.problems:
             if what.startswith('infrastructure'): raise RuntimeError(what)
-            report(ctx, inp['spec'], inp['history'], strict, what, detail)
+            report(ctx, inp['spec'], inp['history'], strict, what, detail, shrunk=True)
         check_records(ctx, [r])
     else:
         run(ctx)
